@@ -536,3 +536,67 @@ func (x *expectCtx) multisetSchema(c *ssa.Return, oldP *ssa.Parameter) (bool, st
 	}
 	return false, ""
 }
+
+// ruleDescend: a hunk whose path is not exhausted must be handed on: in
+// jsonObject.patch and in the leaf patch() every success return on a path
+// where pathAhead is not known to be a leaf is the outcome of a nested
+// patch-family call (creating intermediate objects for merge patches and
+// reporting missing containers for strict ones).
+func ruleDescend(w *World, r *Report, pf *patchFamily) {
+	const rule = "R-DESCEND"
+	var targets []*ssa.Function
+	for _, fn := range pf.methods {
+		if fn.Signature.Recv() != nil && typeName(fn.Signature.Recv().Type()) == "jsonObject" {
+			targets = append(targets, fn)
+		}
+	}
+	targets = append(targets, pf.leaf)
+	for _, fn := range targets {
+		r.Fn(fnName(fn))
+		x := &expectCtx{w: w, pf: pf, fn: fn, d: NewDeriv(w, fn), ea: newErrAnalysis(w), lps: loopsOf(fn)}
+		calls := pf.familyCalls(fn)
+		pa := pf.roleParam(fn, "pathAhead")
+		leaf := EdgeSet{}
+		for _, b := range fn.Blocks {
+			cond, tE, fE, ok := branchEdges(b)
+			if !ok {
+				continue
+			}
+			switch c := cond.(type) {
+			case *ssa.BinOp:
+				t, off, _, okT := termOf(c.X)
+				k, okK := constInt(c.Y)
+				if okT && okK && t.isLen && off == 0 && k == 0 && t.v == ssa.Value(pa) {
+					switch c.Op {
+					case token.EQL:
+						leaf[tE] = true
+					case token.NEQ, token.GTR:
+						leaf[fE] = true
+					}
+				}
+			case *ssa.Call:
+				if sf := staticCallee(c); sf != nil && sf.Name() == "isLeaf" && len(c.Call.Args) == 1 && strip(c.Call.Args[0]) == ssa.Value(pa) {
+					leaf[tE] = true
+				}
+			}
+		}
+		if len(leaf) == 0 {
+			r.Unk(rule, fnName(fn)+":leaf-test", w.Pos(fn.Pos()), "no test of `pathAhead is exhausted` found")
+			continue
+		}
+		n := 0
+		bad := ""
+		for _, ret := range returnsOf(fn) {
+			if !isNilErrReturn(ret) || x.delegated(ret, calls) {
+				continue
+			}
+			n++
+			if !cutsOff(fn, leaf, ret.Block()) {
+				bad = w.Pos(ret.Pos())
+			}
+		}
+		r.Check(bad == "", rule, fnName(fn)+":own-commits-only-at-leaf", w.Pos(fn.Pos()),
+			fmt.Sprintf("all %d success returns that are not the outcome of a nested patch lie behind `pathAhead is exhausted`", n),
+			"a success return at "+bad+" is reachable while the hunk's path is not exhausted and without a nested patch: the rest of the path is silently ignored (no intermediate object created, no missing container reported)")
+	}
+}
